@@ -515,7 +515,7 @@ pub fn run(tier: Tier) -> i32 {
         ck.explore::<Td>("teardown", i, c, &ecfg);
     }
     ck.rule = format!(
-        "4 roles x 9 base schedules (servers: the protocol service, while handling a SUBSCRIBE, is itself awaiting a QoS 1 send through the sink with two PINGREQs queued behind it; the window slot held by a publish sent through the non-blocking API with a send and a ready() future parked behind it; an outbound QoS 1 publish being streamed by the application - header and first chunk written, second chunk owed, another sender parked behind it; write back-pressure active - peer not reading, 16-byte write buffer over its high watermark, a publish handler in flight - with the peer reading again after the fault; the publish/subscribe stream delivered one byte per write for peer close / read error / force-close at every byte offset; two gated publish handlers + gated SUBSCRIBE; streamed PUBLISH half received with the handler blocked in read(); the same (servers) with the payload taken over by a task of its own that is blocked in read_all(); one send awaiting its ack + one parked on the window + one ready() future) x 11 termination causes (peer close, read error, write error, undecodable bytes, protocol-violating packet, publish handler error, protocol handler error, keep-alive expiry, sink.close(), sink.force_close(), and - inbound bases - the application's publish service (clients: protocol service) starting to fail in Service::ready()); the cause is injected before/after every step of the base schedule at quiescence and, with {} deviation(s), between any two task polls; afterwards virtual time advances up to 60 s and gates are never opened; oracle: exactly one Stop of the class the statement assigns to the cause, connection task completed, every send/ready future resolved, blocked reader saw an error or was cancelled (a reader outside the handler: saw an error), a publish sent through the non-blocking API had its callback invoked exactly once with the disconnected flag, handlers cancelled only after the Stop was handled, nothing left executing",
+        "4 roles x 11 base schedules (the application's publish service (clients: protocol service) not ready - its own back-pressure - with a gated handler in flight and two publishes arrived but unread: the dispatcher sits in its reading pause, which ends after a remote fault and lasts through a local one; servers: a gated SUBSCRIBE handler that never completes with PINGREQs queued behind it; servers: the protocol service, while handling a SUBSCRIBE, is itself awaiting a QoS 1 send through the sink with two PINGREQs queued behind it; the window slot held by a publish sent through the non-blocking API with a send and a ready() future parked behind it; an outbound QoS 1 publish being streamed by the application - header and first chunk written, second chunk owed, another sender parked behind it; write back-pressure active - peer not reading, 16-byte write buffer over its high watermark, a publish handler in flight - with the peer reading again after the fault; the publish/subscribe stream delivered one byte per write for peer close / read error / force-close at every byte offset; two gated publish handlers + gated SUBSCRIBE; streamed PUBLISH half received with the handler blocked in read(); the same (servers) with the payload taken over by a task of its own that is blocked in read_all(); one send awaiting its ack + one parked on the window + one ready() future) x 11 termination causes (peer close, read error, write error, undecodable bytes, protocol-violating packet, publish handler error, protocol handler error, keep-alive expiry, sink.close(), sink.force_close(), and - inbound bases - the application's publish service (clients: protocol service) starting to fail in Service::ready()); the cause is injected before/after every step of the base schedule at quiescence and, with {} deviation(s), between any two task polls; afterwards virtual time advances up to 60 s and gates are never opened; oracle: exactly one Stop of the class the statement assigns to the cause, connection task completed, every send/ready future resolved, blocked reader saw an error or was cancelled (a reader outside the handler: saw an error), a publish sent through the non-blocking API had its callback invoked exactly once with the disconnected flag, handlers cancelled only after the Stop was handled, nothing left executing",
         ecfg.max_dev
     );
     ck.assumptions = vec![
